@@ -796,6 +796,9 @@ func (x *exec) histC16() {
 		if x.stop {
 			return
 		}
+		if x.s.Steps[i].Rep > 0 && x.res.Stats.Steps > 4*RepStepCap {
+			continue // warm-up repeats cut short
+		}
 		m := x.cache
 		e := x.begin(MinBudget*5, 0)
 		switch st.Op {
